@@ -726,6 +726,10 @@ def exec_op(w, op):
     elif name == "design":
         c = w.contours[op["c"] % len(w.contours)]
         co = c["obj"]
+        if isinstance(co.coordinates, list):
+            # a highest-density contour of several separate regions keeps a list of coordinate arrays: design conditions
+            # are defined for one closed contour (precondition of the op, counted as skipped)
+            raise KeyError("multi-part contour")
         out["target"] = co
         out["entry"] = "calculate_design_conditions"
         sv = op["steps"]
